@@ -207,9 +207,10 @@ def run(prog, rep, tier):
 
     # ------------------------------------------------------------ R16.2 / R16.4
     selfcalls = [c for c in b.live_calls() if c.d == FN]
-    if len(selfcalls) < 5:
+    if len(selfcalls) < 2:
         raise CheckerError("pathbuf_to_filetype_impl: %d self-calls" % len(selfcalls))
     arch_by_lit = {}
+    any_computed = False
     for i, c in enumerate(selfcalls):
         inst = "%s|selfcall#%d" % (FN, i)
         a2 = b.origins(c.args[1])
@@ -244,7 +245,11 @@ def run(prog, rep, tier):
         rep.examined(R162, inst, sample={"line": c.line, "under_literals": sorted(lits), "unparseable_flag_unchanged": bool(ok2), "container_passed": desc})
         if not ok2:
             rep.violation(R162, inst + "|flag", "pathbuf_to_filetype_impl: the self-call at line %d does not pass unparseable_are_text unchanged" % c.line)
-        if desc is None or desc == "None":
+        computed = desc is None and any(x[0] == "agg" for x in b.origins(c.args[2])) and not any(
+            isinstance(b.stmts(x[1])[x[2]][2][1], dict) and b.stmts(x[1])[x[2]][2][1].get("variant") == "None" for x in b.origins(c.args[2]) if x[0] == "agg")
+        if computed:
+            any_computed = True      # Some(<value chosen by an inner match>): decided per suffix by R16.11
+        elif desc is None or desc == "None":
             rep.violation(R162, inst + "|container", "pathbuf_to_filetype_impl: the self-call at line %d passes %s as the container kind; the kind found so far is lost" % (c.line, desc))
         elif lits:
             if desc == "incoming":
@@ -300,7 +305,7 @@ def run(prog, rep, tier):
         kinds.setdefault(v, []).append(l)
     rep.examined(R162, FN + "|compression-table", sample={"literal_to_container": arch_by_lit})
     want = {"Gz", "Bz2", "Xz", "Lz4"}
-    if set(kinds) != want:
+    if set(kinds) != want and not any_computed:
         rep.violation(R162, FN + "|compression-table", "pathbuf_to_filetype_impl: compression suffixes map to %s, expected one each of %s" % (sorted(kinds), sorted(want)))
 
     # ------------------------------------------------------------ R16.5
@@ -332,9 +337,7 @@ def run(prog, rep, tier):
         if not okw:
             rep.violation(R166, "%s|suffix:%s" % (FN, word), "pathbuf_to_filetype_impl: the documented type word %r as a suffix %s; it is then stripped like a rotation suffix and a type word further left (e.g. wtmp in 'wtmp.utmpdump.txt') selects the reader" % (
                 word, "is not matched" if res is None else "selects %s" % (res[1:3],)))
-    for word in ("gz", "gzip", "bz2", "xz", "xzip", "lz4"):
-        if word not in arch_by_lit:
-            rep.violation(R166, "%s|compression:%s" % (FN, word), "pathbuf_to_filetype_impl: the documented compression suffix %r is not recognised" % word)
+    # (the compression suffixes are decided per literal by R16.11, whatever the shape of the match)
 
     # ------------------------------------------------------------ R16.7 no vacuous early fallback
     R167 = rep.rule("R16.7", "an all-characters test that returns a fallback is guarded against the empty string")
@@ -580,6 +583,94 @@ def run(prog, rep, tier):
             rep.violation(R1610, _key.split("|", 1)[1] + "|" + _rid, _what)
     if _n16 < 1:
         raise CheckerError("R16.10: no C05 R5.5/R5.10 instance to lift")
+
+    # ------------------------------------------------------------ R16.11 each compression suffix records its own container (path-sensitive)
+    # For every documented compression suffix the function strips the suffix and calls itself with the
+    # container that suffix names.  Decided by walking the CFG with the string comparisons of the suffix
+    # fixed to one literal at a time (`suffix == "xzip"` true, every other `suffix == c` false) and
+    # evaluating the container argument that reaches the self-call - whatever shape the match has
+    # (one arm per suffix, or one arm with an inner match and a wildcard).
+    R1611 = rep.rule("R16.11", "under each compression suffix the self-call records that suffix's container")
+    WANT = {"gz": "Gz", "gzip": "Gz", "bz2": "Bz2", "xz": "Xz", "xzip": "Xz", "lz4": "Lz4"}
+    eqs = {}
+    for c in b.live_calls():
+        if c.d.split("::")[-1] in ("eq", "ne") and "str" in c.d and len(c.args) == 2 and c.args[1][0] == "k" and isinstance(c.args[1][2], str) and c.target is not None:
+            t = b.term(c.target)
+            if t[0] == "switch" and op_local(t[1]) == c.dest[0]:
+                eqs[c.target] = (c.args[1][2], c.d.split("::")[-1])
+    if len(eqs) < 10:
+        raise CheckerError("R16.11: only %d constant string comparisons found" % len(eqs))
+    sc_bbs = {c.bb: c for c in selfcalls}
+
+    def _variant_at(state, op_, depth=0):
+        if op_[0] == "k":
+            return None
+        l_ = op_local(op_)
+        if l_ in state:
+            return state[l_]
+        ds_ = b.defs.get(l_, [])
+        if len(ds_) == 1 and ds_[0][1] != "call" and depth < 6:
+            rv_ = ds_[0][2]
+            if rv_[0] == "use":
+                return _variant_at(state, rv_[1], depth + 1)
+            if rv_[0] == "agg" and isinstance(rv_[1], dict) and rv_[1].get("variant") == "Some" and rv_[2]:
+                return _variant_at(state, rv_[2][0], depth + 1)
+            if rv_[0] == "agg" and isinstance(rv_[1], dict) and "FileTypeArchive" in rv_[1].get("adt", "") and not rv_[2]:
+                return rv_[1].get("variant")
+        v_ = variant_of(b, op_)
+        return v_
+    for lit, want in sorted(WANT.items()):
+        # keep only self-calls that lie behind a comparison with this literal being true
+        behind = set()
+        for tb_, (c_, kind_) in eqs.items():
+            if c_ == lit:
+                t = b.term(tb_)
+                arms_ = {int(v_): x_ for v_, x_ in t[2]}
+                tt = (t[3] if 0 in arms_ else arms_.get(1)) if kind_ == "eq" else arms_.get(0, t[3])
+                if tt is not None:
+                    behind |= {x_ for x_ in sc_bbs if b.dominates(tt, x_) or x_ in b.reachable(tt)}
+        seen, work, got = set(), [(0, ())], set()
+        steps = 0
+        while work and steps < 200000:
+            steps += 1
+            bb, st = work.pop()
+            if (bb, st) in seen:
+                continue
+            seen.add((bb, st))
+            state = dict(st)
+            for stt in b.stmts(bb):
+                if stt[0] == "=" and len(stt[1]) == 1:
+                    rv_ = stt[2]
+                    if rv_[0] == "agg" and isinstance(rv_[1], dict) and "FileTypeArchive" in rv_[1].get("adt", "") and not rv_[2]:
+                        state[stt[1][0]] = rv_[1].get("variant")
+                    elif rv_[0] == "use" and rv_[1][0] != "k" and len(rv_[1][1]) == 1 and rv_[1][1][0] in state:
+                        state[stt[1][0]] = state[rv_[1][1][0]]
+                    elif stt[1][0] in state:
+                        del state[stt[1][0]]
+            if bb in sc_bbs:
+                # only self-calls that lie behind the comparison with this literal count
+                if bb in behind:
+                    got.add(_variant_at(state, sc_bbs[bb].args[2]) or "?")
+                continue        # the self-call returns; do not go on
+            t = b.term(bb)
+            fz = tuple(sorted(state.items()))
+            if bb in eqs and t[0] == "switch":
+                c_, kind_ = eqs[bb]
+                truth = (c_ == lit) if kind_ == "eq" else (c_ != lit)
+                arms_ = {int(v_): tb_ for v_, tb_ in t[2]}
+                nxt = (t[3] if 0 in arms_ else arms_.get(1)) if truth else arms_.get(0, t[3])
+                if nxt is not None and nxt in b.live:
+                    work.append((nxt, fz))
+            else:
+                for s_ in b.succ[bb]:
+                    if s_ in b.live:
+                        work.append((s_, fz))
+        rep.examined(R1611, "%s|%s" % (FN, lit), sample={"suffix": lit, "container_recorded": sorted(got), "expected": want, "steps": steps})
+        if not behind:
+            rep.violation(R1611, "%s|%s|unmatched" % (FN, lit), "pathbuf_to_filetype_impl: no self-call lies behind a comparison of the suffix with %r" % lit)
+        elif got - {want, "?"} or want not in got:
+            rep.violation(R1611, "%s|%s|wrong-container" % (FN, lit), "pathbuf_to_filetype_impl: with the suffix %r the self-call records the container %s, expected %s; "
+                          "`app.log.%s` is handed to the wrong decoder and nothing is read" % (lit, sorted(got), want, lit))
 
     return rep.finish(
         "Static necessary-condition check of the name classifier: the suffix table and the bare-name table agree on every shared type word, every "
